@@ -6,7 +6,9 @@ package sim
 
 import (
 	"fmt"
+	"github.com/tendermint/tendermint/privval"
 	"os"
+	"path/filepath"
 	"strconv"
 	"strings"
 	"time"
@@ -59,17 +61,28 @@ type JournalPV struct {
 	Priv  crypto.PrivKey
 	Log   []SignRec
 	Clock func() int
+	// File, if set, is the signer that really signs: the file-based private validator with its height/round/step
+	// bookkeeping (Config.FilePV). The journal records what it released.
+	File *privval.FilePV
 }
 
 func (pv *JournalPV) GetPubKey() (crypto.PubKey, error) { return pv.Priv.PubKey(), nil }
 
 func (pv *JournalPV) SignVote(chainID string, vote *tmproto.Vote) error {
-	sb := types.VoteSignBytes(chainID, vote)
-	sig, err := pv.Priv.Sign(sb)
-	if err != nil {
-		return err
+	var sb, sig []byte
+	if pv.File != nil {
+		if err := pv.File.SignVote(chainID, vote); err != nil {
+			return err
+		}
+		sb, sig = types.VoteSignBytes(chainID, vote), vote.Signature
+	} else {
+		var err error
+		sb = types.VoteSignBytes(chainID, vote)
+		if sig, err = pv.Priv.Sign(sb); err != nil {
+			return err
+		}
+		vote.Signature = sig
 	}
-	vote.Signature = sig
 	kind := "prevote"
 	if vote.Type == tmproto.PrecommitType {
 		kind = "precommit"
@@ -87,12 +100,20 @@ func (pv *JournalPV) SignVote(chainID string, vote *tmproto.Vote) error {
 }
 
 func (pv *JournalPV) SignProposal(chainID string, p *tmproto.Proposal) error {
-	sb := types.ProposalSignBytes(chainID, p)
-	sig, err := pv.Priv.Sign(sb)
-	if err != nil {
-		return err
+	var sb, sig []byte
+	if pv.File != nil {
+		if err := pv.File.SignProposal(chainID, p); err != nil {
+			return err
+		}
+		sb, sig = types.ProposalSignBytes(chainID, p), p.Signature
+	} else {
+		var err error
+		sb = types.ProposalSignBytes(chainID, p)
+		if sig, err = pv.Priv.Sign(sb); err != nil {
+			return err
+		}
+		p.Signature = sig
 	}
-	p.Signature = sig
 	bid, _ := types.BlockIDFromProto(&p.BlockID)
 	rec := SignRec{Seq: len(pv.Log), Kind: "proposal", H: p.Height, R: p.Round, POL: p.PolRound, SignBytes: sb, Sig: sig, Time: p.Timestamp}
 	if bid != nil {
@@ -167,6 +188,8 @@ type Config struct {
 	InitialHeight     int64
 	SkipTimeoutCommit bool
 	GenesisTime       time.Time
+	// FilePV: the correct nodes sign through privval.FilePV (state files in a scratch directory) instead of the bare key
+	FilePV bool
 }
 
 type Net struct {
@@ -176,7 +199,10 @@ type Net struct {
 	Order  []int // correct node keys, ascending
 	// GossipMode: order of one idealised-gossip pass (see gossipOrder); "" = chronological
 	GossipMode string
-	StopHeight int64 // idealised gossip stops once every correct node has decided this height (0 = never)
+	// PeerMode: through how many neighbours messages reach a node (see peerFor)
+	PeerMode   string
+	scratch    string // directory of the file signers (Config.FilePV)
+	StopHeight int64  // idealised gossip stops once every correct node has decided this height (0 = never)
 	Pool       []*Packet
 	Events     []string
 	Blocked    map[[2]int]bool // (from,to) pairs currently cut
@@ -265,6 +291,21 @@ func (net *Net) newNode(key int) (*Node, error) {
 	n.CS = consensus.NewState(ccfg, st, exec, n.BlockStore, mp, n.Evpool)
 	n.CS.SetLogger(log.NewNopLogger())
 	n.PV = &JournalPV{Priv: lib.Key(key), Clock: func() int { return len(net.Events) }}
+	if net.Cfg.FilePV {
+		if net.scratch == "" {
+			base := ""
+			if fi, err := os.Stat("/dev/shm"); err == nil && fi.IsDir() {
+				base = "/dev/shm"
+			}
+			dir, err := os.MkdirTemp(base, "simpv")
+			if err != nil {
+				return nil, err
+			}
+			net.scratch = dir
+		}
+		n.PV.File = privval.NewFilePV(lib.Key(key), filepath.Join(net.scratch, fmt.Sprintf("key%d.json", key)), filepath.Join(net.scratch, fmt.Sprintf("state%d.json", key)))
+		n.PV.File.Save()
+	}
 	n.CS.SetPrivValidator(n.PV)
 	n.Bus = types.NewEventBus()
 	n.Bus.SetLogger(log.NewNopLogger())
@@ -284,6 +325,9 @@ func (net *Net) Close() {
 		return
 	}
 	net.closed = true
+	if net.scratch != "" {
+		os.RemoveAll(net.scratch) //nolint
+	}
 	for _, n := range net.Nodes {
 		if n.Bus != nil {
 			n.Bus.Stop() //nolint
@@ -303,6 +347,19 @@ func (net *Net) ValSet() *types.ValidatorSet {
 }
 
 func peerOf(key int) p2p.ID { return p2p.ID(fmt.Sprintf("v%d", key)) }
+
+// peerFor: the neighbour through which packet p reaches a node. Who RELAYS a message is not who signed it: the vote
+// sets admit catch-up rounds per relaying peer. PeerMode "" = one neighbour per signer (a full mesh of validators),
+// "single" = everything arrives through one neighbour (a validator behind a sentry), "two" = two neighbours.
+func (net *Net) peerFor(p *Packet) p2p.ID {
+	switch net.PeerMode {
+	case "single":
+		return p2p.ID("relay")
+	case "two":
+		return p2p.ID(fmt.Sprintf("relay%d", p.ID%2))
+	}
+	return peerOf(p.From)
+}
 
 func classify(msg consensus.Message) (kind string, h int64, r int32, block string) {
 	switch m := msg.(type) {
@@ -403,7 +460,7 @@ func (net *Net) Deliver(p *Packet, to int) bool {
 	}
 	net.Deliveries[to] = append(net.Deliveries[to], Delivery{Event: len(net.Events), Pkt: p})
 	net.Logf("deliver #%d (%s from %d h=%d r=%d %s) to %d", p.ID, p.Kind, p.From, p.H, p.R, p.Block, to)
-	net.protect(n, "peer "+p.Kind, func() { n.CS.VerifHandleMsg(msg, peerOf(p.From)) })
+	net.protect(n, "peer "+p.Kind, func() { n.CS.VerifHandleMsg(msg, net.peerFor(p)) })
 	n.CS.VerifDrainStats()
 	net.settle(n)
 	return true
